@@ -1638,6 +1638,24 @@ _resource_tracker""")),
     M("leak-reader-not-closed-after-kill", ["C20"], ["R-LEAK"],
       (PE, """        self.call_queue._reader.close()
 """, "")),
+    M("nulled-top-up-outside-submit-lock", ["C01", "C05"], ["R-NULLED", "R-SPAWN-SITE"],
+      (PE, """            self._executor_manager_thread_wakeup.wakeup()
+
+            self._ensure_executor_running()
+            # Wake up the queue management thread again once the workers are
+            # (re)spawned and registered: it waits on a snapshot of the worker
+            # sentinels and would not notice the death of a worker that was
+            # registered after that snapshot was taken.
+            self._executor_manager_thread_wakeup.wakeup()
+            return f""", """            self._executor_manager_thread_wakeup.wakeup()
+
+        # spawning can be slow: do it without holding the shutdown lock
+        self._ensure_executor_running()
+        with self._flags.shutdown_lock:
+            if self._executor_manager_thread_wakeup is not None:
+                self._executor_manager_thread_wakeup.wakeup()
+        return f""")),
+
 ]
 
 
